@@ -14,7 +14,7 @@ CERTIFIED per instance (direct verdicts):
 CERTIFIED with an ASSUMED analytic tail bound (the improper integral is cut at B and the neglected tail is bounded by a
 textbook inequality that is NOT proved in Coq; the lemma decides the tolerance for every value in [I, I + tail bound]):
   erfc(x), x > 1 (tail of exp(-t^2) beyond B is below exp(-B^2)/(2B)); ncdf(x), x < -1; e1(x) and expint(n, x), integer n >= 1,
-  x > 0 (RInt exp(-x t)/t^n 1 B; tail below exp(-x B)/(x B^n)); gammainc(a, x, inf) for dyadic non-integer a >= 1.
+  x > 0 (x^(n-1) RInt exp(-u)/u^n x B; tail below exp(-B)/B^n); gammainc(a, x, inf) for dyadic non-integer a >= 1.
 METAMORPHIC only (Coq-proved soundness lemma Meta.lin2_violation; `consistent` proves nothing): increments
   F(b) - F(a) = RInt f a b for F in {erfc (tails), e1, ei, si, ci, shi, chi, li} on 0 < a < b (li: 1 < a < b),
   and ci(x) + e1(x) = RInt exp(-x sin t) sin(x cos t) 0 (PI/2).
@@ -45,14 +45,14 @@ ASSUMPTIONS = [
     "ncdf x = 1/2 + 1/sqrt(2 PI) RInt exp(-t^2/2) 0 x; npdf(x,mu,sigma) = exp(-(x-mu)^2/(2 sigma^2))/(sigma sqrt(2 PI)); "
     "fresnels x = RInt sin(PI t^2/2) 0 x, fresnelc likewise with cos; gammainc(a, x0, x1) = RInt t^(a-1) e^-t x0 x1 (mpmath argument "
     "order gammainc(z, a=0, b=inf)), regularized = divided by Gamma(a) (integer a: (a-1)!); betainc(a, b, x0, x1) = RInt t^(a-1) (1-t)^(b-1) x0 x1, "
-    "regularized = divided by beta(a,b) = (a-1)!(b-1)!/(a+b-1)! for integers; E_n(x) = RInt_1^inf exp(-x t)/t^n dt; e1 = E_1; "
+    "regularized = divided by beta(a,b) = (a-1)!(b-1)!/(a+b-1)! for integers; E_n(x) = RInt_1^inf exp(-x t)/t^n dt = x^(n-1) RInt_x^inf exp(-u)/u^n du; e1 = E_1; "
     "ei(b)-ei(a) = RInt e^t/t a b; si, ci, shi, chi increments = RInt of sin t/t, cos t/t, sinh t/t, cosh t/t; li(b)-li(a) = RInt 1/ln t a b; "
     "t^(a-1) for non-integer a is exp((a-1) ln t).",
     "Named identities (textbook, not proved in Coq): gamma(n, x) = (n-1)! (1 - e^-x sum_{k<n} x^k/k!), Gamma(n, x) = (n-1)! e^-x sum_{k<n} x^k/k! "
     "for integer n >= 1; si(x) = PI/2 - RInt exp(-x sin t) cos(x cos t) 0 (PI/2) and ci(x) + e1(x) = RInt exp(-x sin t) sin(x cos t) 0 (PI/2) "
     "(quarter-circle contour of e^{iz}/z; both checked numerically at dps 30 when the module was written).",
     "ASSUMED tail inequalities (elementary, not proved in Coq) for the kinds marked 'tail': 0 < RInt_B^inf exp(-t^2) dt < exp(-B^2)/(2B); "
-    "0 < RInt_B^inf exp(-t^2/2) dt < exp(-B^2/2)/B; 0 < RInt_B^inf exp(-x t)/t^n dt < exp(-x B)/(x B^n); "
+    "0 < RInt_B^inf exp(-t^2/2) dt < exp(-B^2/2)/B; 0 < RInt_B^inf exp(-u)/u^n du < exp(-B)/B^n; "
     "0 < RInt_B^inf t^(a-1) e^-t dt < B^(a-1) e^-B / (1 - (a-1)/B) for B > a-1 >= 0.  The Coq lemma then states the tolerance for every "
     "value of the interval [I, I + bound] (I the proper integral up to B), so the verdict is exact given these inequalities.",
     "erfinv: y = erfinv(x) within relative e of the true inverse  <=>  erf(y(1-e)) <= x <= erf(y(1+e)) for y > 0 (erf is increasing); "
@@ -63,7 +63,7 @@ ASSUMPTIONS = [
 
 def iparams(p):
     d = max(10, min(32, (p + 24) // 5))
-    return {"i_degree": d, "i_fuel": 600, "margin": 30}
+    return {"i_degree": d, "i_fuel": 600, "margin": 22}
 
 
 T = var("t")
@@ -200,11 +200,11 @@ def b_ncdf_tail(cid, k, args, p, yvs, eps, meta, params):
 
 
 def b_expint_tail(cid, k, args, p, yvs, eps, meta, params):
-    n, x = args; y = _real(yvs)               # E_n(x) = RInt_1^B exp(-x t)/t^n dt + tail
-    B = Fraction(int((1 + (p + 40) * 0.6931471805599453 / float(x)) * 8) + 1, 8)
-    X = C(x)
-    lo = rint("t", exp(-(X * T)) / (powz(T, n) if n > 1 else T), 1, C(B))
-    tau = exp(C(-x * B)) / C(x * B ** n)
+    n, x = args; y = _real(yvs)               # E_n(x) = x^(n-1) (RInt_x^B exp(-u)/u^n du + tail),  tail < exp(-B)/B^n
+    B = x + Fraction(int((p + 40) * 0.6931471805599453 * 4) + 1, 4)
+    sc = C(Fraction(x) ** (n - 1))
+    lo = sc * rint("t", exp(-T) / (powz(T, n) if n > 1 else T), C(x), C(B))
+    tau = sc * exp(C(-B)) / C(B ** n)
     return [tail_instance(cid + "_tail", y, lo, tau, eps, params=params, meta=meta)]
 
 
@@ -346,7 +346,7 @@ def run(rep, tier_, rng):
     for k in K:
         if k.precs is PRECS_INT_QUICK and tier_ == "thorough":
             k.precs = [20, 53, 100, 100, 200]
-    run_kinds(rep, K, tier_, rng, n_quick=64, n_thorough=420, precs_quick=PRECS_QUICK, precs_thorough=PRECS_THOROUGH,
+    run_kinds(rep, K, tier_, rng, n_quick=int(os.environ.get('VERIF_B3_N', 48)), n_thorough=420, precs_quick=PRECS_QUICK, precs_thorough=PRECS_THOROUGH,
               assumptions=ASSUMPTIONS, rule=RULE, not_decided=NOT_DECIDED,
               params={"sentence_timeout": 100 if tier_ == "quick" else 400, "single_timeout": 100 if tier_ == "quick" else 400,
                       "batch": 6, "ladder": [1]},
